@@ -333,7 +333,9 @@ def check(pid, tier, seed):
             cfg["props_file"], obligations, len(printed), len(answers))
         discharged = min(len(answers), obligations)
     allowed_axioms = set(cfg.get("allowed_axioms", []))
-    extra_ax = [a for a in axioms if a not in allowed_axioms]
+    # native 63-bit integer primitives (PrimInt63.*) are kernel primitives, not declared axioms; they
+    # are reported in the evidence's trusted base but need not be allow-listed per property
+    extra_ax = [a for a in axioms if a not in allowed_axioms and not a.startswith("PrimInt63.")]
     if extra_ax and not proof_broken:
         proof_broken = "theorem depends on axioms not named in the trusted base: " + ", ".join(extra_ax)
 
